@@ -212,6 +212,26 @@ def mapping_view(obj, names, types, label):
     if list(cls.attributes()) != names:
         bad.append('attributes() {} != {}'.format(list(cls.attributes()),
                                                   names))
+    # the list handed out belongs to the caller: what the caller does to it
+    # changes nothing (restored afterwards, in case it was the class's own)
+    handed = cls.attributes()
+    if isinstance(handed, list) and not bad:
+        saved = list(handed)
+        try:
+            handed.reverse()
+            handed.append('not-an-argument')
+            if [k for k, _v in obj] != names or \
+                    list(cls.attributes()) != names or len(obj) != len(names):
+                bad.append('after the caller reversed and extended the list '
+                           'returned by attributes(), iteration gives {} and '
+                           'attributes() {}'.format(
+                               [k for k, _v in obj][:6],
+                               list(cls.attributes())[:6]))
+        except Exception as exc:  # noqa
+            bad.append('after the caller changed the list returned by '
+                       'attributes(): {!r}'.format(exc))
+        finally:
+            handed[:] = saved
     for n, t in zip(names, types):
         try:
             if cls.amqp_type(n) != t:
